@@ -177,6 +177,9 @@ impl Script {
 }
 
 fn apply_writer<MAC, RAC>(layer: &LayerRef<B, MAC, RAC>, w: &Value, root: &Path) -> String {
+    if w["arm"].as_bool() == Some(true) {
+        let _ = std::fs::remove_file("/__verif_arm__");
+    }
     let r: Result<(), libcnb::Error<String>> = match w["kind"].as_str().unwrap_or("") {
         "metadata" => layer.write_metadata(M { v: w["v"].as_str().unwrap_or("new").to_string() }),
         "env" => {
@@ -239,6 +242,11 @@ pub fn layer_struct(req: &Value) -> Value {
     let layers = root.join("L");
     std::fs::create_dir_all(&layers).unwrap();
     let ctx = build_context(&layers);
+    // arms the LD_PRELOAD fault injector, if one is loaded (C12 replays): before the request, or only before the writers
+    let arm_at_writer = req["arm"].as_str() == Some("writer");
+    if !arm_at_writer {
+        let _ = std::fs::remove_file("/__verif_arm__");
+    }
     let name: LayerName = req["layer"].as_str().unwrap_or("n1").parse().unwrap();
     let launch = req["launch"].as_bool().unwrap_or(false);
     let build = req["build"].as_bool().unwrap_or(false);
@@ -293,6 +301,7 @@ pub fn layer_struct(req: &Value) -> Value {
         }
         _ => cached_m(&ctx, &name, build, launch, &script, root, req, &mut writer_results),
     };
+    let _ = std::fs::remove_file("/__verif_disarm__");
     json!({
         "result": result,
         "log": Value::Array(script.log.borrow().clone()),
